@@ -127,6 +127,9 @@ any_ptr! { 'gc;
     NodeE => Gc<'gc, ()>, GcWeak<'gc, ()>,
     NodeD => Gc<'gc, dyn DynNode<'gc> + 'gc>, GcWeak<'gc, dyn DynNode<'gc> + 'gc>,
     Bag => Gc<'gc, RefLock<BagBody<'gc>>>, GcWeak<'gc, RefLock<BagBody<'gc>>>,
+    // immutable objects made through the copy path: their elements ARE pointers
+    CopySlice => Gc<'gc, [Edge<'gc>], KFat<SP>>, GcWeak<'gc, [Edge<'gc>], KFat<SP>>,
+    CopySwh => Gc<'gc, SliceWithHeader<CopyHead<'gc>, Edge<'gc>>, KFat<HP>>, GcWeak<'gc, SliceWithHeader<CopyHead<'gc>, Edge<'gc>>, KFat<HP>>,
     // a Node allocated with per-type metadata, in the kind it was allocated with
     NodeM => Gc<'gc, RefLock<NodeBody<'gc>>, KNodeM>, GcWeak<'gc, RefLock<NodeBody<'gc>>, KNodeM>,
 }
@@ -150,6 +153,15 @@ pub struct SwhHead<'gc> {
     pub tok: Tok,
     pub fp: FaultPoint,
     pub slot: Lock<Option<AnyGc<'gc>>>,
+}
+
+/// Header of the copy-path slice-with-header kind: it holds an edge of its own.
+#[derive(Collect)]
+#[collect(no_drop)]
+pub struct CopyHead<'gc> {
+    pub id: Id,
+    pub tok: Tok,
+    pub e: Option<AnyGc<'gc>>,
 }
 
 pub type Edge<'gc> = Option<AnyGc<'gc>>;
